@@ -22,8 +22,10 @@ from . import _anneal as A
 ID = "C12"
 EXT = "hook"
 RULE = ("(det) random valid calls with a fixed seed in {0,5,2^31-1}, with and without initial_state, repeated in-process "
-        "and in one fresh process per shard; (T0) schedule [0]*k with initial_state on integer-labelled Matrix models "
-        "without gaps whose coefficients are distinct powers of two (every boolean variable carries a linear term), so "
+        "and in one fresh process per shard; (T0) schedule [inf]*a + [0]*k (a in {0,1,2,3,1000}: at infinite temperature "
+        "every proposed flip is accepted, so the prefix is deterministic), with or without an (ignored) anneal_duration, "
+        "with initial_state, on integer-labelled Matrix models without gaps or labelled models with a user-chosen "
+        "enumeration, whose coefficients are distinct powers of two (every boolean variable carries a linear term), so "
         "no energy change is exactly 0: final state compared with a Python reference sweep for in_order=True, energy "
         "monotonicity for both orders; (chi2) 2-4 spin quadratic/cubic models, k in {1,2,3} positive temperatures, "
         "1e5 anneals per call, Pearson chi-square against the exact chain (bins with expectation < 10 merged; "
@@ -39,9 +41,11 @@ P_THRESHOLD = 1e-9
 def FLOORS(tier):
     q = tier == "quick"
     return {"det:in-process": 400 if q else 15000, "det:fresh-process": 400 if q else 15000,
-            "det:without-initial_state": 150, "T0:reference-sweeps": 150 if q else 6000, "T0:flips-seen": 300, "T0:schedule-container:generator": 20,
+            "det:without-initial_state": 150, "T0:reference-sweeps": 100 if q else 4000, "T0:flips-seen": 150, "T0:schedule-container:generator": 20,
+            "T0:labelled-with-user-mapping": 60, "T0:infinite-temperature-prefix": 60, "T0:schedule-longer-than-default-duration": 15,
+            "T0:anneal_duration-given-with-explicit-schedule": 40,
             "chi2:tests": 40 if q else 1500, "chi2:random-order": 12, "chi2:in-order": 12, "chi2:cubic": 8,
-            "chi2:boolean-front-end": 8, "hook-dE-checks": 10 ** 6 if q else 5 * 10 ** 7, "hook:big-workloads": 8}
+            "chi2:boolean-front-end": 8, "hook-dE-checks": 10 ** 6 if q else 5 * 10 ** 7, "hook-exactness-verdicts": 300, "hook:big-workloads": 8}
 
 
 # ---- chi-square survival function (regularised upper incomplete gamma), no scipy in /venv --------------------
@@ -162,12 +166,8 @@ def setup(ctx):
 def case(ctx, rng, idx):
     what = pick(rng)
     {"det": case_det, "T0": case_t0, "chi2": case_chi2, "big": case_big}[what](ctx, rng, idx)
-    c = A.counters()
-    if c is not None:
-        ctx.count("hook-dE-checks", c[0])
-        if c[1] or c[2]:
-            ctx.violation("kernel-hook:" + ("dE-mismatch" if c[1] else "index-out-of-bounds"),
-                          "H2 hook: mismatches=%d bounds=%d during a %s case" % (c[1], c[2], what), {"case": what, "idx": idx})
+    # det and T0 workloads have exactly summable coefficients; chi2 / big ones need not
+    A.hook_verdict(ctx, {"case": what, "idx": idx}, exact=what in ("det", "T0"), what=" during a %s case" % what)
 
 
 def case_det(ctx, rng, idx):
@@ -190,6 +190,10 @@ def case_det(ctx, rng, idx):
         ctx.nontrivial(("det", cfg["fn"], cfg["type"], sorted(cfg["terms"].items(), key=repr), sorted(cfg["kw"].items(), key=repr)))
 
 
+LABELLED = {"QUSOMatrix": "QUSO", "PUSOMatrix": "PUSO", "QUBOMatrix": "QUBO", "PUBOMatrix": "PUBO"}
+INFTY = float("inf")
+
+
 def case_t0(ctx, rng, idx):
     tn = rng.choice(["QUSOMatrix", "PUSOMatrix", "QUBOMatrix", "PUBOMatrix"])
     fn = {"QUSOMatrix": rng.choice(["anneal_quso", "anneal_puso"]), "PUSOMatrix": "anneal_puso",
@@ -200,34 +204,66 @@ def case_t0(ctx, rng, idx):
     items = list(terms.items())
     rng.shuffle(items)                      # labels need not first appear in increasing order
     terms = dict(items)
-    M = getattr(L, tn)()
-    for k_, v_ in items:
-        M[k_] += v_
+    name = [i for i in range(n)]            # name[i] = label of the variable with index i
+    if rng.random() < 0.35:
+        # a labelled model with a user-chosen enumeration (listed in an order unrelated to the indices): the initial
+        # state is given by label; only the energy claims apply (the exact sweep order is stated for Matrix models)
+        tn = LABELLED[tn]
+        pool = gen.labels(rng, 6) + ["u6", "u7"]
+        name = pool[:n]
+        M = getattr(L, tn)()
+        for k_, v_ in items:
+            M[tuple(name[i] for i in k_)] += v_
+        pairs = [(name[i], i) for i in range(n)]
+        rng.shuffle(pairs)
+        if rng.random() < 0.5:
+            M.set_mapping(dict(pairs))
+        else:
+            M.set_reverse_mapping({i: l for l, i in pairs})
+        ctx.cat("T0:labelled-with-user-mapping")
+    else:
+        M = getattr(L, tn)()
+        for k_, v_ in items:
+            M[k_] += v_
     p = ref.from_raw("spin" if spin else "bool", terms)
     dom = (1, -1) if spin else (0, 1)
     init = {i: rng.choice(dom) for i in range(n)}
     k = rng.randint(1, 3)
+    # a prefix of infinite-temperature sweeps is deterministic too: every proposed flip is accepted
     in_order = rng.random() < 0.7
-    kw = dict(schedule=[0] * k, initial_state=dict(init), in_order=in_order, num_anneals=rng.choice([1, 3]),
+    hot = rng.choice([0, 0, 0, 1, 2, 3, 1000]) if in_order else 0       # (a random-order sweep may visit a spin twice)
+    sched = [INFTY] * hot + [0] * k
+    kw = dict(schedule=list(sched), initial_state={name[i]: v for i, v in init.items()}, in_order=in_order, num_anneals=rng.choice([1, 3]),
               seed=rng.choice([None, 3]))
-    w = {"function": fn, "type": tn, "terms": terms, "kwargs": dict(kw)}
+    if rng.random() < 0.3:
+        kw["anneal_duration"] = rng.choice([1, 2, 5])       # documented: ignored when an explicit schedule is given
+        ctx.cat("T0:anneal_duration-given-with-explicit-schedule")
+    if hot:
+        ctx.cat("T0:infinite-temperature-prefix")
+    if hot + k > 1000:
+        ctx.cat("T0:schedule-longer-than-default-duration")
+    w = {"function": fn, "type": tn, "terms": terms, "labels_by_index": name, "mapping": dict(getattr(M, "mapping", {})),
+         "kwargs": dict(kw, schedule="[inf]*%d + [0]*%d" % (hot, k))}
     cont = rng.choice(["list", "list", "tuple", "generator", "iter", "ndarray"])
     w["schedule_container"] = cont
     ctx.cat("T0:schedule-container:" + cont)
     if cont == "tuple":
-        kw["schedule"] = tuple(kw["schedule"])
+        kw["schedule"] = tuple(sched)
     elif cont == "generator":
-        kw["schedule"] = (0 for _ in range(k))
+        kw["schedule"] = (t for t in list(sched))
     elif cont == "iter":
-        kw["schedule"] = iter([0] * k)
+        kw["schedule"] = iter(list(sched))
     elif cont == "ndarray":
-        kw["schedule"] = np.zeros(k)
+        kw["schedule"] = np.array(sched, dtype=float)
     ok, res = ctx.call(fn, getattr(L.sim, fn), M, _w=w, **kw)
     if not ok:
         return
     e0 = p.value(init)
     # reference sweep
     cur = dict(init)
+    if hot % 2:
+        cur = {i: ((-v) if spin else (1 - v)) for i, v in cur.items()}
+    e_start = p.value(cur)
     flips = 0
     tie = False
     for _ in range(k):
@@ -243,22 +279,27 @@ def case_t0(ctx, rng, idx):
     if tie:
         ctx.cat("T0:tie-skipped")
         return
+    cur_l = {name[i]: v for i, v in cur.items()}
     for r in res:
-        if frac(r.value) > e0:
-            ctx.violation("T0:energy-increased", "value %r > initial %r" % (r.value, float(e0)), w)
+        st = {i: r.state[name[i]] for i in range(n)} if set(r.state) == set(name) else None
+        if st is None:
+            ctx.violation("T0:state-wrong-variables", "state over %r, model over %r" % (sorted(map(repr, r.state)), sorted(map(repr, name))), w)
             return
-        if frac(r.value) != p.value(r.state):
-            ctx.violation("T0:value-mismatch", "value %r but model at state is %r" % (r.value, float(p.value(r.state))), w)
+        if frac(r.value) > e_start:
+            ctx.violation("T0:energy-increased", "value %r > value %r at the start of the zero-temperature sweeps" % (r.value, float(e_start)), w)
             return
-        if in_order and r.state != cur:
-            ctx.violation("T0:state-differs-from-reference-sweep", "final %r, reference sweep %r (init %r)" % (r.state, cur, init), w)
+        if frac(r.value) != p.value(st):
+            ctx.violation("T0:value-mismatch", "value %r but model at state is %r" % (r.value, float(p.value(st))), w)
             return
-    if in_order:
+        if in_order and name == list(range(n)) and r.state != cur_l:       # the exact sweep order is stated for integer-labelled Matrix models
+            ctx.violation("T0:state-differs-from-reference-sweep", "final %r, reference sweep %r (init %r)" % (r.state, cur_l, kw["initial_state"]), w)
+            return
+    if in_order and name == list(range(n)):
         ctx.count("T0:reference-sweeps")
         ctx.count("T0:flips-seen", flips)
     if n >= 2:
-        ctx.nontrivial(("T0", fn, tn, sorted(terms.items()), sorted(init.items()), k, in_order))
-    ctx.sample({"T0": w, "final": cur}, limit=2)
+        ctx.nontrivial(("T0", fn, tn, sorted(terms.items()), sorted(init.items()), k, hot, in_order))
+    ctx.sample({"T0": w, "final": cur_l}, limit=2)
 
 
 def case_chi2(ctx, rng, idx):
